@@ -66,6 +66,10 @@ CHECKS = {
                 technique="bounded-exhaustive metamorphic enumeration (every single edit, every relocation) of message definitions hashed by the real parser; cross-language and cross-process comparison; wire observation of the real Client",
                 text="Base messages with 0-3 fields x every single edit (rename, id, field rename/retype/insert/delete/transpose, signal<->message) must give pairwise distinct hashes; every relocation (imported file, sub-directory, other file name, import order, comments/blank lines/unrelated definitions, core import, alignment options) must keep the hash; separate processes with different PYTHONHASHSEED/cwd agree; Python/C/JS/MATLAB outputs carry the same 32-bit value; the real Client stamps it into header.version for every generated and core class.",
                 note="Known finding (open): field-list reuse hashes the source's name, not its fields. send_signal(type_id) has no class at hand and sends version 0 (unspecified)."),
+    "C15": dict(engine="DEFX", level="exploration", ref="DESIGN.md 4/C15",
+                technique="bounded-exhaustive enumeration of definition programs (all reference shapes x placements), one compile per program, outputs loaded in Python / gcc / node / a MATLAB-subset interpreter",
+                text="Every program of up to 3-4 definitions (alias, struct, message, signal, field-list reuse) in which each definition refers to a native type or to any earlier definition in every permitted way, for every resolvable root/imported placement, plus one program per remaining documented construct; compile() must not raise, the Python module must import and register every message with its recorded size, the C header must compile, every JavaScript factory must return fresh objects with distinct array elements, and the MATLAB script must define before use.",
+                note="MATLAB is only checked by a subset interpreter (no MATLAB/Octave in the sandbox). Known findings (open): emission order of aliases of structs and of structs with message-typed fields in all four back ends."),
 }
 
 ALL = [f"C{i:02d}" for i in range(1, 20)]
